@@ -113,6 +113,12 @@ Theorem main_streams_only_checked_regular_files : forall canonical file_mode dir
   has_bit (file_mode (cstr p)) S_IFREG = true /\ can_open (cstr p) = true.
 Proof. exact main_serves. Qed.
 Print Assumptions main_streams_only_checked_regular_files.
+Theorem main_redirects_only_for_checked_directories : forall canonical file_mode dir_entries can_open cfg f loc,
+  fs_main canonical file_mode dir_entries can_open cfg f = RRedirect loc ->
+  loc = f ++ [slash] /\ last f 0 <> slash /\
+  exists path, check_in_document_root canonical cfg f = Some path /\ has_bit (file_mode (cstr path)) S_IFDIR = true.
+Proof. exact main_redirects. Qed.
+Print Assumptions main_redirects_only_for_checked_directories.
 Theorem served_file_contained_lexical : forall canonical file_mode dir_entries can_open cfg target p e,
   check_symlinks cfg = false ->
   handle canonical file_mode dir_entries can_open cfg target = RFile p e ->
